@@ -18,6 +18,9 @@ struct C12 : Prop {
 	static std::vector<uint8_t> adversarial_payload(Rng &r, bool normal, const std::vector<std::vector<uint8_t>> &addrs) {
 		std::vector<uint8_t> p;
 		int nm = (int) r.range(1, 3);
+		// one time in twelve: a single message close to the protocol maximum (the whole packet just fits the 256-byte receive buffer)
+		bool huge = r.chance(85);
+		if (huge) nm = 1;
 		for (int k = 0; k < nm; k++) {
 			std::vector<uint8_t> m;
 			// address part
@@ -38,6 +41,7 @@ struct C12 : Prop {
 			} else type = r.byte();
 			std::vector<uint8_t> data;
 			size_t dl = r.chance(150) ? (size_t) r.range(10, 40) : (size_t) r.below(10);
+			if (huge) { if (ad.size() > 3) ad.resize(3); term = true; dl = (size_t) r.range(150, 251 - (long) ad.size()); }
 			for (size_t i = 0; i < dl; i++) data.push_back(r.chance(300) ? cat::edge_byte(r) : (uint8_t) r.below(r.chance(500) ? 8 : 256));
 			m.push_back(0);
 			for (uint8_t a : ad) m.push_back(a);
@@ -47,7 +51,7 @@ struct C12 : Prop {
 			// length byte: right, too large, too small, zero
 			uint64_t y = r.below(100);
 			size_t real = m.size() - 1;
-			if (y < 55) m[0] = (uint8_t) real;
+			if (y < 55 || (huge && y < 90)) m[0] = (uint8_t) real;
 			else if (y < 70) m[0] = (uint8_t) std::min<size_t>(255, real + (size_t) r.range(1, 200));
 			else if (y < 85) m[0] = (uint8_t) (real ? r.below(real) : 0);
 			else if (y < 92) m[0] = 0;
